@@ -26,7 +26,7 @@ ASSUMPTIONS = [
     "a rejected write still counts as 'written' for the user/once clauses; C16.continue compares against a second run without rejections",
 ]
 PROBES = ["override.value", "override.disabled", "override.nondefault_setting", "override.disable_nondefault", "current.unreadable", "current.above_default",
-          "rejected_write", "buffer_count_written", "version_gt_14", "schema_default_injected"]
+          "rejected_write", "reject_status.INVALID_CALL", "reject_status.NO_BUFFERS", "reject_status.BAD_ARGUMENT", "reject_status.INVALID_ID", "buffer_count_written", "version_gt_14", "schema_default_injected"]
 
 VERSIONS = list(range(4, 17))
 LEVELS = ("unreadable", 0, 11, 12, 13, 200)
@@ -67,9 +67,11 @@ def plan(tier):
             step = 1 if tier == "thorough" else 3
             for i in range(0, len(names), 8):
                 sweeps.append(("grid", {"V": V, "level": lvl, "names": names[i:i + 8], "step": step, "sched": False}))
+        for st0 in (0, 2):
+            sweeps.append(("rejects", {"V": V, "st0": st0, "sched": False}))
     return {
         "sweeps": sweeps,
-        "exhaustive": "versions 4..16 x uniform current value {unreadable, 0, 11, 12, 13, 200} x {no override; every single-setting override: disabled, and each schema-valid candidate value (every third one in quick)}",
+        "exhaustive": "every written setting rejected in turn with each of four rejection statuses; versions 4..16 x uniform current value {unreadable, 0, 11, 12, 13, 200} x {no override; every single-setting override: disabled, and each schema-valid candidate value (every third one in quick)}",
         "random": [("random", {}, 1)],
         "runs": 2500 if tier == "quick" else None,
         "budget_s": 60 if tier == "quick" else 900,
@@ -102,6 +104,9 @@ def run(scenario, params, tape, detail=False):
     def probe(n, k=1):
         probes[n] = probes.get(n, 0) + k
 
+    last = {}
+    REJ = ("INVALID_CALL", "NO_BUFFERS", "BAD_ARGUMENT", "INVALID_ID")  # EzspStatus ERROR_INVALID_CALL / OUT_OF_MEMORY / INVALID_VALUE / INVALID_ID
+
     async def one(ez, current, overrides, reject, label):
         """current: {id: value|'unreadable'}; overrides: {name: value|None}; reject: set of ids"""
         nev[0] += 1
@@ -113,7 +118,7 @@ def run(scenario, params, tape, detail=False):
             ncp.config_writes.clear()
             ncp.config_default = {i: v for i, v in current.items() if v != "unreadable"}
             ncp.config_unreadable = {i for i, v in current.items() if v == "unreadable"}
-            ncp.config_reject = set(rej)
+            ncp.config_reject = dict(rej) if isinstance(rej, dict) else set(rej)
 
         setup(reject)
         raised = None
@@ -123,6 +128,7 @@ def run(scenario, params, tape, detail=False):
             raised = e
         log = list(ncp.write_log)
         cfg = [(i, v, st) for (k, i, v, st) in log if k == "config"]
+        last["cfg"] = cfg
         where = f"v{V} {label} overrides={overrides} rejected={sorted(name_of.get(i, i) for i in reject)}: "
         ids = [i for (i, v, st) in cfg]
         # once
@@ -207,6 +213,15 @@ def run(scenario, params, tape, detail=False):
                 vals = valid_values(V, n)
                 for v in vals[:: params.get("step", 1)]:
                     await one(ez, current, {n: v}, set(), f"current={lvl}")
+        elif scenario == "rejects":
+            # every written setting rejected in turn, with every rejection status: the remaining ones are written all the same
+            current = {int(e): 1 for e in t.EzspConfigId}
+            await one(ez, current, {}, set(), "baseline")
+            ids = [i for (i, v, st_) in last["cfg"]]
+            for stn in REJ[params["st0"]:params["st0"] + 2]:
+                for i in ids:
+                    probe("reject_status." + stn)
+                    await one(ez, current, {}, {i: stn}, f"one rejection ({stn})")
         else:
             current = {}
             pool = ("unreadable", 0, 1, 3, 11, 12, 13, 15, 16, 17, 31, 32, 33, 199, 200, 201, 254, 255)
@@ -224,9 +239,9 @@ def run(scenario, params, tape, detail=False):
                     vals = valid_values(V, n)
                     if vals:
                         overrides[n] = vals[tape.draw(len(vals), "oval")]
-            reject = set()
+            reject = {}
             for _ in range(tape.draw(4, "nrej")):
-                reject.add(int(list(t.EzspConfigId)[tape.draw(len(t.EzspConfigId), "rej")]))
+                reject[int(list(t.EzspConfigId)[tape.draw(len(t.EzspConfigId), "rej")])] = REJ[tape.draw(len(REJ), "rej.status")]
             await one(ez, current, overrides, reject, "random")
 
     outcome, val = rig.run(main())
